@@ -351,7 +351,7 @@ class Contract:
                  inline=(), inline_only=False, slice=None, class_attrs=None, writes=(), note="", shape_bound=4,
                  native=None, name=None, self_spec=None, max_shapes=60, crosscheck=True, refute=True, assumed=False,
                  native_call=None, cases_filter=None, gen=None, native_ok=True, compare_native=None, slice_note=None,
-                 not_decided=(), lemmas=None, ghost_after=None, ghost_on=(), finite=None, locate=None, curry=(), finite_native=None, lib=None, may_raise=(), abstract_nl=True, abstract_real=False, overrides=None, register=True, sum_axioms=False):
+                 not_decided=(), lemmas=None, ghost_after=None, ghost_on=(), finite=None, locate=None, curry=(), finite_native=None, lib=None, may_raise=(), abstract_nl=True, abstract_real=False, overrides=None, register=True, sum_axioms=False, writable_attrs=None):
         self.target = target
         self.props = list(props)
         self.params = dict(params or {})
@@ -386,6 +386,7 @@ class Contract:
         self.finite_native = finite_native  # finite_native(obligation id) -> (fails natively: bool, text)
         self.may_raise = tuple(may_raise)  # exception classes that are acceptable outcomes without a stated condition
         self.abstract_real = abstract_real
+        self.writable_attrs = dict(writable_attrs or {})   # param -> attribute names that may be written (everything else of that object is frozen)
         self.sum_axioms = sum_axioms      # add the recursive definition and extensionality of SUM to the path condition
         self.overrides = dict(overrides or {})   # callee qualname -> contract used at call sites of THIS contract only
         self.abstract_nl = abstract_nl    # False: integer * // % stay interpreted (small nonlinear problems, e.g. bounded case splits)
@@ -436,6 +437,15 @@ class Contract:
     def freeze(self, args):
         for n, v in args.items():
             if n in self.writes:
+                continue
+            if n in self.writable_attrs and isinstance(v, SObj):
+                allowed = set(self.writable_attrs[n])
+                v.frozen = True
+                v.writable = allowed
+                seen = {id(v)}
+                for k, x in v.attrs.items():
+                    if k not in allowed:
+                        _freeze(x, seen)
                 continue
             if isinstance(v, (SSeq, CList, CDict, SObj)):
                 _freeze(v, set())
